@@ -838,6 +838,12 @@ func FromV3Schemas(schemas map[string]*openapi3.SchemaRef, components *openapi3.
 	v2Params := make(map[string]*openapi2.Parameter)
 	for name, schema := range schemas {
 		schemaConv, parameterConv := FromV3SchemaRef(schema, components)
+		if schemaConv != nil && schema.Ref == "" && schema.Value != nil {
+			if _, shared := schema.Value.Extensions["x-formData-name"]; shared {
+				// a shared formData parameter of any type (files are recognised by FromV3SchemaRef itself)
+				schemaConv, parameterConv = nil, fromV3FormDataSchema(schema.Value, schema.Value.Type, schema.Value.Format)
+			}
+		}
 		if schemaConv != nil {
 			v2Defs[name] = schemaConv
 		} else if parameterConv != nil {
@@ -848,6 +854,44 @@ func FromV3Schemas(schemas map[string]*openapi3.SchemaRef, components *openapi3.
 		}
 	}
 	return v2Defs, v2Params
+}
+
+// fromV3FormDataSchema turns the schema that ToV3 made of a shared formData parameter (it carries the parameter's
+// name as x-formData-name) back into that parameter.
+func fromV3FormDataSchema(schema *openapi3.Schema, paramType *openapi3.Types, format string) *openapi2.Parameter {
+	required := false
+
+	value, _ := schema.Extensions["x-formData-name"]
+	originalName, _ := value.(string)
+	for _, prop := range schema.Required {
+		if originalName == prop {
+			required = true
+			break
+		}
+	}
+	return &openapi2.Parameter{
+		In:           "formData",
+		Name:         originalName,
+		Description:  schema.Description,
+		Type:         paramType,
+		Format:       format,
+		Enum:         schema.Enum,
+		Minimum:      schema.Min,
+		Maximum:      schema.Max,
+		ExclusiveMin: schema.ExclusiveMin,
+		ExclusiveMax: schema.ExclusiveMax,
+		MinLength:    schema.MinLength,
+		MaxLength:    schema.MaxLength,
+		Default:      schema.Default,
+		// Items:           schema.Items,
+		MinItems:        schema.MinItems,
+		MaxItems:        schema.MaxItems,
+		AllowEmptyValue: schema.AllowEmptyValue,
+		UniqueItems:     schema.UniqueItems,
+		MultipleOf:      schema.MultipleOf,
+		Extensions:      stripNonExtensions(schema.Extensions),
+		Required:        required,
+	}
 }
 
 func FromV3SchemaRef(schema *openapi3.SchemaRef, components *openapi3.Components) (*openapi2.SchemaRef, *openapi2.Parameter) {
@@ -870,39 +914,7 @@ func FromV3SchemaRef(schema *openapi3.SchemaRef, components *openapi3.Components
 
 	if schema.Value != nil {
 		if schema.Value.Type.Is("string") && schema.Value.Format == "binary" {
-			paramType := &openapi3.Types{"file"}
-			required := false
-
-			value, _ := schema.Value.Extensions["x-formData-name"]
-			originalName, _ := value.(string)
-			for _, prop := range schema.Value.Required {
-				if originalName == prop {
-					required = true
-					break
-				}
-			}
-			return nil, &openapi2.Parameter{
-				In:           "formData",
-				Name:         originalName,
-				Description:  schema.Value.Description,
-				Type:         paramType,
-				Enum:         schema.Value.Enum,
-				Minimum:      schema.Value.Min,
-				Maximum:      schema.Value.Max,
-				ExclusiveMin: schema.Value.ExclusiveMin,
-				ExclusiveMax: schema.Value.ExclusiveMax,
-				MinLength:    schema.Value.MinLength,
-				MaxLength:    schema.Value.MaxLength,
-				Default:      schema.Value.Default,
-				// Items:           schema.Value.Items,
-				MinItems:        schema.Value.MinItems,
-				MaxItems:        schema.Value.MaxItems,
-				AllowEmptyValue: schema.Value.AllowEmptyValue,
-				UniqueItems:     schema.Value.UniqueItems,
-				MultipleOf:      schema.Value.MultipleOf,
-				Extensions:      stripNonExtensions(schema.Value.Extensions),
-				Required:        required,
-			}
+			return nil, fromV3FormDataSchema(schema.Value, &openapi3.Types{"file"}, "")
 		}
 	}
 
